@@ -28,6 +28,14 @@ def unregisterWatcher (uid : Nat) : M Unit :=
 def setStopping : M Unit := modA fun a => { a with stopping := true }
 def setRestarting : M Unit := modA fun a => { a with restarting := true, stopping := true }
 def setLoopStop (b : Bool) : M Unit := modA fun a => { a with loopStop := b }
+def setSocketEvent (b : Bool) : M Unit := modA fun a => { a with socketEvent := b }
+def setSockReady (b : Bool) : M Unit := modA fun a => { a with sockReady := b }
+
+/-- `Watcher.pending_socket_event` -/
+def pendingSocketEvent (wuid : Nat) : M Bool := do
+  let w ← getW wuid
+  let a ← getA
+  pure (w.onDemand && !a.socketEvent)
 
 def pollsOf (gtMs : Nat) : Nat := (gtMs + 99) / 100
 
@@ -134,6 +142,14 @@ def spawnLoop (rec : Rec) (wuid remaining : Nat) (wt : Waiter) : M Unit := do
       awaitSleep (w.warmup - (now - t)) (.spawnLoop wuid rem) wt
 
 def spawnProcesses (rec : Rec) (wuid : Nat) (wt : Waiter) : M Unit := do
+  -- "when an on_demand process dies, do not restart it until the next event"
+  let pend ← pendingSocketEvent wuid
+  if pend then do
+    -- stopped only once no worker is left (as repaired)
+    let w0 ← getW wuid
+    if w0.pids.isEmpty then setStatus wuid .stopped
+    deliver rec wt .unit
+  else
   let w ← getW wuid
   let n := w.np - w.pids.length
   if n ≤ 0 then deliver rec wt .unit else spawnLoop rec wuid n.toNat wt
@@ -181,7 +197,7 @@ def manageAfterExpire (rec : Rec) (wuid : Nat) (wt : Waiter) : M Unit := do
   let w ← getW wuid
   if (w.pids.length : Int) < w.np && w.status ≠ .stopping then
     if w.respawn then await rec (.spawnProcesses wuid) (.manageTail wuid) wt
-    else if w.pids.isEmpty then await rec (.stop_ wuid false) (.manageTail wuid) wt
+    else if w.pids.isEmpty && !w.onDemand then await rec (.stop_ wuid false) (.manageTail wuid) wt
     else manageTail rec wuid wt
   else manageTail rec wuid wt
 
@@ -207,6 +223,8 @@ def manageProcesses (rec : Rec) (wuid : Nat) (wt : Waiter) : M Unit := do
 /-! ### Watcher._start / _restart / _reload / set_numprocesses / do_action -/
 
 def startW (rec : Rec) (wuid : Nat) (wt : Waiter) : M Unit := do
+  let pend ← pendingSocketEvent wuid
+  if pend then deliver rec wt .unit else
   let w ← getW wuid
   if w.status ≠ .stopped then
     if (w.pids.length : Int) < w.np then
@@ -338,7 +356,31 @@ def manageWatchers (rec : Rec) (wt : Waiter) : M Unit := do
   if a.stopping then deliver rec wt .unit else
   arbReapProcesses
   let ws ← iterWatchers true
-  awaitMulti rec (ws.map fun w => .manageProcesses w) .ignore wt
+  -- `need_on_demand`: some on-demand watcher is stopped (looked at just before its own manage_processes;
+  -- no watcher's check changes another watcher's status)
+  let s ← getS
+  let need := ws.any fun u => match s.ws.find? (·.uid = u) with
+    | some w => w.onDemand && w.status = .stopped
+    | none => false
+  awaitMulti rec (ws.map fun w => .manageProcesses w) (.manageWatchersTail need) wt
+
+/-- the end of `manage_watchers`: a connection waiting on a managed socket starts the on-demand
+    watchers — `_start_watchers()` is called without `yield`, `socket_event` is true only during its
+    first (eager) run -/
+def manageWatchersTail (rec : Rec) (need : Bool) (wt : Waiter) : M Unit := do
+  let a ← getA
+  if need && a.sockReady then
+    setSocketEvent true
+    let ws ← iterWatchers true
+    let s ← getS
+    -- only the on-demand watchers (as repaired: a socket event does not bring back watchers stopped on purpose)
+    let od := ws.filter fun u => match s.ws.find? (·.uid = u) with | some w => w.onDemand | none => false
+    -- nobody holds the returned future: an exception that escapes it is reported by the loop (`watch`)
+    let tid ← newTop [.watch]
+    rec (.call (.arbStartWatchers od) (.top tid))
+    armTop tid
+    setSocketEvent false
+  deliver rec wt .unit
 
 def rmWatcher (rec : Rec) (uid : Nat) (nostop : Bool) (wt : Waiter) : M Unit := do
   notify uid "remove" none
@@ -392,6 +434,7 @@ def runResume (rec : Rec) (k : Kont) (v : Val) (wt : Waiter) : M Unit :=
   | .multiSlot fid slot, v => multiCollect rec fid slot v
   | _, .exc e => deliver rec wt (.exc e)       -- an exception propagates through every other frame
   | .killWait w p sig i polls, _ => killLoop rec w p sig i polls wt
+  | .manageWatchersTail need, _ => manageWatchersTail rec need wt
   | .killWaitOther p, _ => do
       let o ← getO p
       if o.stopping then awaitSleep 100 (.killWaitOther p) wt else deliver rec wt (.bool false)
